@@ -224,6 +224,16 @@ class TypeObject:
 
     def is_instance(self, obj: object) -> bool:
         """Whether obj is an instance of this type."""
+        if (
+            self.is_protocol
+            and isinstance(self.typ, type)
+            and safe_isinstance(obj, type)
+        ):
+            # isinstance() on a runtime-checkable protocol only looks for the
+            # protocol's members with hasattr(), which on a class object also finds
+            # the methods meant for its instances. What the class object itself
+            # supports is determined by its metaclass.
+            return safe_issubclass(type(obj), self.typ)
         return safe_isinstance(obj, self.typ)
 
     def is_exactly(self, types: Container[type]) -> bool:
